@@ -1036,10 +1036,16 @@ class Interp:
                     return (l.v in [x.value for x in r.elts]) == isinstance(test.ops[0], ast.In)
         if isinstance(test, ast.Compare) and len(test.ops) == 1 and isinstance(test.ops[0], (ast.Is, ast.IsNot)) and isinstance(test.comparators[0], ast.Constant) and test.comparators[0].value is None:
             v = self.ev(test.left, env)
-            if isinstance(v, (DataList, RefLists, Vec, RefL, Sq, I)):
+            if isinstance(v, (DataList, RefLists, Vec, RefL, Sq, I, ObjVal)):
                 return isinstance(test.ops[0], ast.IsNot)
             if isinstance(v, K):
                 return (v.v is None) == isinstance(test.ops[0], ast.Is)
+        if isinstance(test, ast.Compare) and len(test.ops) == 1 and isinstance(test.ops[0], (ast.Eq, ast.NotEq, ast.Lt, ast.LtE, ast.Gt, ast.GtE)):
+            # two integers that are both known (x.ndim == 1 for a record with two axes)
+            l, r = self.ev(test.left, env), self.ev(test.comparators[0], env)
+            if isinstance(l, I) and isinstance(r, I) and l.p.is_const() and r.p.is_const():
+                a_, b_ = l.p.const(), r.p.const()
+                return {ast.Eq: a_ == b_, ast.NotEq: a_ != b_, ast.Lt: a_ < b_, ast.LtE: a_ <= b_, ast.Gt: a_ > b_, ast.GtE: a_ >= b_}[type(test.ops[0])]
         if isinstance(test, ast.Compare) and len(test.ops) == 1 and isinstance(test.ops[0], (ast.Is, ast.IsNot)) and isinstance(test.comparators[0], ast.Constant) \
                 and isinstance(test.comparators[0].value, bool):
             v = self.ev(test.left, env)
